@@ -72,7 +72,7 @@ def extract_tests(text):
     return tests
 
 
-def run_native(scratch, spec, testname, testcode, profile="dev"):
+def run_native(scratch, spec, testname, testcode, profile="dev", full_output=False):
     """insert the generated unit test next to the harness in a scratch copy and run it natively.
     returns (reproduced: bool|None, output tail)"""
     base = make_playback_copy(scratch, spec)
@@ -122,7 +122,7 @@ def run_native(scratch, spec, testname, testcode, profile="dev"):
         # more symbolic inputs than were recorded: the recorded failure no longer occurs
         return False, "the recorded failure no longer occurs (execution continues past the recorded inputs)"
     if re.search(r"test result: FAILED|panicked at", out):
-        return True, out[-1500:]
+        return True, (out if full_output else out[-1500:])
     if re.search(r"test result: ok\. 1 passed", out):
         return False, out[-800:]
     return None, out[-1500:]
@@ -146,6 +146,58 @@ def replay_failure(scratch, spec, logdir):
     if not tests:
         return None, None, "Kani produced no concrete playback test"
     return tests, text, None
+
+
+def native_search(scratch, spec):
+    """Fallback when Kani could not extract a trace within its caps (very large harnesses): the
+    harness is run natively over its small, finite input domain (annotation native_domain) until
+    one input makes it fail; that input is then turned into an ordinary concrete-playback test.
+    The solver has already shown that a failing input exists; this only finds one to replay."""
+    dom = spec.get("native_domain")
+    if not dom:
+        return None
+    parts = []
+    for item in dom.split(","):
+        ty, rng = item.split(":")
+        lo, hi = rng.split("..")
+        parts.append((ty, int(lo), int(hi)))
+    loops, vals, closes = "", [], ""
+    for i, (ty, lo, hi) in enumerate(parts):
+        loops += "    " * (i + 1) + "for v%d in %d..%d%s {\n" % (i, lo, hi, ty)
+        vals.append("v%d.to_le_bytes().to_vec()" % i)
+        closes = "    " * (i + 1) + "}\n" + closes
+    ind = "    " * (len(parts) + 1)
+    name = "kani_native_search_" + spec["name"]
+    code = (
+        "#[test]\nfn %s() {\n    extern crate std;\n    std::panic::set_hook(std::boxed::Box::new(|_| {}));\n    let mut found: Option<std::string::String> = None;\n" % name
+        + loops
+        + ind + "if found.is_some() { continue; }\n"
+        + ind + "let vals: std::vec::Vec<std::vec::Vec<u8>> = std::vec![%s];\n" % ", ".join(vals)
+        + ind + "let r = std::panic::catch_unwind(|| kani::concrete_playback_run(vals, %s));\n" % spec["name"]
+        + ind + "if let Err(e) = r {\n"
+        + ind + "    let msg = if let Some(s) = e.downcast_ref::<&str>() { std::string::String::from(*s) } else if let Some(s) = e.downcast_ref::<std::string::String>() { s.clone() } else { std::string::String::new() };\n"
+        + ind + "    if !msg.contains(\"kani::assume\") && !msg.contains(\"det vals\") {\n"
+        + ind + "        found = Some(std::format!(\"FOUND %s\", %s));\n" % (" ".join(["{}"] * len(parts)), ", ".join("v%d" % i for i in range(len(parts))))
+        + ind + "    }\n"
+        + ind + "}\n"
+        + closes
+        + "    if let Some(f) = found { std::println!(\"{}\", f); panic!(\"{}\", f); }\n}\n"
+    )
+    rep, out = run_native(scratch, spec, name, code, full_output=True)
+    m = re.search(r"FOUND ((?:-?\d+ ?)+)", out or "")
+    if not m:
+        return None
+    found = [int(x) for x in m.group(1).split()]
+    lines = []
+    for (ty, _lo, _hi), v in zip(parts, found):
+        width = {"i8": 1, "u8": 1, "i16": 2, "u16": 2, "i32": 4, "u32": 4, "i64": 8, "u64": 8, "usize": 8}[ty]
+        b = (v % (1 << (8 * width))).to_bytes(width, "little")
+        lines.append("        // %d\n        vec![%s]," % (v, ", ".join(str(x) for x in b)))
+    tn = "kani_concrete_playback_%s_native_search" % spec["name"]
+    tc = ("/// Test for harness `%s`, input found by native enumeration of the harness's finite input domain\n"
+          "/// (%s) after the solver had reported the failure\n#[test]\nfn %s() {\n    let concrete_vals: Vec<Vec<u8>> = vec![\n%s\n    ];\n"
+          "    kani::concrete_playback_run(concrete_vals, %s);\n}\n") % (spec["name"], dom, tn, "\n".join(lines), spec["name"])
+    return [(tn, tc)]
 
 
 def store_replay(prop, spec, testname, testcode, what):
@@ -291,7 +343,16 @@ def main():
                 unreplayed.append((s, what))
                 continue
             attempts += 1
-            tests, text, err = replay_failure(scratch, s, logdir)
+            tests, err = None, "no test"
+            if s.get("native_domain"):
+                # very large harness with a tiny input domain: extracting a trace would repeat
+                # the whole (expensive) run, enumerating the domain natively takes seconds
+                tests = native_search(scratch, s)
+                if tests:
+                    err = None
+                    notes.append("%s: the failing input was found by native enumeration of the harness's input domain %s" % (s["key"], s["native_domain"]))
+            if not tests:
+                tests, text, err = replay_failure(scratch, s, logdir)
             if err:
                 inconclusive.append("%s: failed (%s) but %s" % (s["key"], what, err))
                 continue
